@@ -32,7 +32,7 @@ use radicle_node::service::message::*;
 use radicle_node::service::policy::Scope;
 use radicle_node::service::{self, Command, ServiceState};
 use radicle_node::test::peer::{self, Peer};
-use radicle_node::wire::verif::{Control as FrameControl, Frame, StreamId};
+use radicle_node::wire::verif::{Control as FrameControl, Frame, FrameData, StreamId};
 use radicle_node::wire::{self, Control, Wire};
 use radicle_node::worker::{FetchError, FetchRequest, FetchResult, Task, TaskResult};
 use radicle_node::{Link, PROTOCOL_VERSION};
@@ -68,7 +68,13 @@ struct World {
     idgen: ResourceIdGenerator,
     tasks: Vec<TaskInfo>,
     responder_tasks: usize,
+    /// responder tasks the wire handed to the worker pool: (peer, stream, finished)
+    rtasks: Vec<(usize, StreamId, bool)>,
+    /// all tasks in the order the worker pool received them: (is initiator, index into tasks / rtasks)
+    alltasks: Vec<(bool, usize)>,
     new_fetches: Vec<Value>,
+    /// control frames the wire sent during the step: [kind, stream id]
+    sent_ctrl: Vec<Value>,
     ann_ts: u64,
     clock_ms: u64,
     _tmp: tempfile::TempDir,
@@ -118,7 +124,7 @@ impl World {
         let (tx, rx) = crossbeam_channel::unbounded::<Task>();
         let wire = Wire::new(service, tx, Device::mock_from_seed([1u8; 32]));
         World { wire, rx, held: Vec::new(), devices, nids, rids, docs, npeers, conns: HashMap::new(), gone: Vec::new(), idgen: ResourceIdGenerator::default(),
-                tasks: Vec::new(), responder_tasks: 0, new_fetches: Vec::new(), ann_ts: 10, clock_ms: T0, _tmp: tmp }
+                tasks: Vec::new(), responder_tasks: 0, rtasks: Vec::new(), alltasks: Vec::new(), new_fetches: Vec::new(), sent_ctrl: Vec::new(), ann_ts: 10, clock_ms: T0, _tmp: tmp }
     }
 
     fn addr(&self, p: usize) -> NetAddr<HostName> {
@@ -126,13 +132,22 @@ impl World {
     }
 
     fn node_ann(&mut self, p: usize) -> Message {
+        self.node_ann_with(p, None)
+    }
+
+    /// Node announcement of peer p; `dns` = announce this DNS-typed host name instead of the IP address.
+    fn node_ann_with(&mut self, p: usize, dns: Option<&str>) -> Message {
         self.ann_ts += 1;
         let msg: AnnouncementMessage = NodeAnnouncement {
             version: PROTOCOL_VERSION,
             features: Features::SEED,
             timestamp: Timestamp::from(LocalTime::from_millis((T0 + self.ann_ts) as u128)),
             alias: Alias::from_str(&format!("n{p}")).unwrap(),
-            addresses: Some(radicle::node::Address::from(net::SocketAddr::from(([8, 8, 8, p as u8], 8776)))).into(),
+            addresses: Some(match dns {
+                Some(name) => radicle::node::Address::from(NetAddr { host: HostName::Dns(name.to_owned()), port: 8776 }),
+                None => radicle::node::Address::from(net::SocketAddr::from(([8, 8, 8, p as u8], 8776))),
+            })
+            .into(),
             nonce: 0,
             agent: UserAgent::from_str("/radicle:test/").unwrap(),
         }
@@ -151,7 +166,22 @@ impl World {
     /// translates the service's outbox) and let the worker pool (us) pick up new tasks.
     fn pump(&mut self) {
         let mut n = 0;
-        while let Some(_action) = self.wire.next() {
+        while let Some(action) = self.wire.next() {
+            if let reactor::Action::Send(_, bytes) = &action {
+                // what we write to the peer: record the control frames
+                let mut cur = std::io::Cursor::new(bytes.as_slice());
+                while (cur.position() as usize) < bytes.len() {
+                    match <Frame<Message> as wire::Decode>::decode(&mut cur) {
+                        Ok(Frame { data: FrameData::Control(c), .. }) => self.sent_ctrl.push(match c {
+                            FrameControl::Open { stream } => json!(["open", u64::from(stream)]),
+                            FrameControl::Close { stream } => json!(["close", u64::from(stream)]),
+                            FrameControl::Eof { stream } => json!(["eof", u64::from(stream)]),
+                        }),
+                        Ok(_) => {}
+                        Err(_) => break,
+                    }
+                }
+            }
             n += 1;
             if n > 10_000 {
                 break;
@@ -166,12 +196,26 @@ impl World {
                         c.opened += 1;
                     }
                     self.tasks.push(TaskInfo { repo: r, peer: p, stream: task.stream, finished: false });
+                    self.alltasks.push((true, self.tasks.len()));
                     self.new_fetches.push(json!([self.tasks.len(), r, p]));
                 }
-                FetchRequest::Responder { .. } => self.responder_tasks += 1,
+                FetchRequest::Responder { remote, .. } => {
+                    self.responder_tasks += 1;
+                    let p = self.nids.iter().position(|x| x == remote).unwrap();
+                    self.rtasks.push((p, task.stream, false));
+                    self.alltasks.push((false, self.rtasks.len()));
+                }
             }
             self.held.push(task);
         }
+    }
+
+    /// A stream id as [side, n, kind] relative to a connection of ours with the given link.
+    fn describe(link: Link, id: u64) -> Value {
+        let ours = (id & 1) == if link.is_inbound() { 1 } else { 0 };
+        let kind = ["control", "gossip", "git", "unknown"][((id >> 1) & 3) as usize];
+        let side = if ours { "us" } else { "them" };
+        json!([side, id >> 3, kind])
     }
 
     fn handover(&mut self, id: ResourceId) {
@@ -206,8 +250,17 @@ impl World {
         Some(s)
     }
 
-    fn apply(&mut self, op: &Value) -> (Option<String>, Value) {
-        let a = op.as_array().unwrap().clone();
+    fn apply(&mut self, op: &Value) -> (Option<String>, Value, Value) {
+        let mut a = op.as_array().unwrap().clone();
+        // "wdone" g: the worker finishes the g-th task it received, whichever kind it is
+        if a[0] == "wdone" {
+            let g = a[1].as_u64().unwrap() as usize;
+            a = match self.alltasks.get(g.wrapping_sub(1)) {
+                Some((true, i)) => vec![json!("done"), json!(i), json!("ok")],
+                Some((false, i)) => vec![json!("rdone"), json!(i)],
+                None => vec![json!("rdone"), json!(0)],
+            };
+        }
         let name = a[0].as_str().unwrap().to_string();
         let us = |i: usize| a[i].as_u64().unwrap() as usize;
         let mut info = json!({});
@@ -279,7 +332,11 @@ impl World {
                     "subscribe" => Message::subscribe(Filter::default(), Timestamp::MIN, Timestamp::MAX),
                     "ping" => Message::Ping(Ping { ponglen: us(3) as u16, zeroes: ZeroBytes::new(0) }),
                     "pong" => Message::Pong { zeroes: ZeroBytes::new(us(3) as u16) },
-                    _ => self.node_ann(p),
+                    // "node" [, dns name]: a node announcement, optionally with a DNS-typed address
+                    _ => match a.get(3).and_then(|x| x.as_str()) {
+                        Some(name) => self.node_ann_with(p, Some(name)),
+                        None => self.node_ann(p),
+                    },
                 };
                 if let Some(c) = self.conns.get(&p) {
                     let bytes = Frame::gossip(Self::their_link(c.link), msg).to_bytes();
@@ -342,6 +399,22 @@ impl World {
                 }));
                 self.pump();
             }
+            "rdone" => {
+                // the worker finishes the g-th responder task (an upload to the peer)
+                let g = us(1);
+                if g == 0 || g > self.rtasks.len() || self.rtasks[g - 1].2 {
+                    info = json!({"unknown": true});
+                    return;
+                }
+                self.rtasks[g - 1].2 = true;
+                let (peer, stream, _) = self.rtasks[g - 1];
+                self.wire.handle_command(Control::Worker(TaskResult {
+                    remote: self.nids[peer],
+                    result: FetchResult::Responder { rid: None, result: Ok(()) },
+                    stream,
+                }));
+                self.pump();
+            }
             "idle" => {
                 self.clock_ms += 31_000;
                 self.wire.tick(reactor::Timestamp::from_millis(self.clock_ms as u128));
@@ -350,10 +423,11 @@ impl World {
             }
             _ => fatal(&format!("unknown op {name}")),
         });
-        (res.err(), info)
+        (res.err(), info, Value::Array(a))
     }
 
-    fn observe(&mut self, op: &Value, panic: Option<String>, info: Value, out: &mut Out) -> bool {
+    /// `op` is the effective operation (a `wdone` resolved to `done` / `rdone`), `src` the script's.
+    fn observe(&mut self, op: &Value, src: &Value, panic: Option<String>, info: Value, out: &mut Out) -> bool {
         // translate the service's outbox through the real Wire, collect tasks from the worker channel,
         // complete the handover of peers the wire decided to drop -- until nothing more happens
         let mut panic = panic;
@@ -401,7 +475,26 @@ impl World {
                 sess.push(json!([p, s.is_connected(), f, s.queue.len(), "x"]));
             }
         }
-        out.emit(&json!({"ev": "step", "op": op, "fetches": fetches, "table": table, "sess": sess, "disc": disc,
+        // stream bookkeeping of every connection: [peer, link, seq, [registered stream ids]]
+        let mut streams = Vec::new();
+        for p in 1..=self.npeers {
+            if let Some(c) = self.conns.get(&p) {
+                if let Some((seq, ids)) = self.wire.verif_streams(c.id) {
+                    let ids: Vec<Value> = ids.iter().map(|i| Self::describe(c.link, *i)).collect();
+                    streams.push(json!([p, if c.link.is_inbound() { "in" } else { "out" }, seq, ids]));
+                }
+            }
+        }
+        // control frames written during the step, stream ids relative to the (single) peer's link
+        let link1 = self.conns.values().next().map(|c| c.link).unwrap_or(Link::Inbound);
+        let sent_ctrl: Vec<Value> = std::mem::take(&mut self.sent_ctrl)
+            .iter()
+            .map(|f| {
+                let d = Self::describe(link1, f[1].as_u64().unwrap());
+                json!([f[0], d[0], d[1], d[2]])
+            })
+            .collect();
+        out.emit(&json!({"ev": "step", "op": op, "src": src, "fetches": fetches, "table": table, "sess": sess, "disc": disc, "streams": streams, "sent_ctrl": sent_ctrl,
             "info": info, "responder_tasks": self.responder_tasks, "panic": panic.clone().unwrap_or_default()}));
         panic.is_some()
     }
@@ -417,8 +510,8 @@ fn main() {
         let cap = run["capacity"].as_u64().unwrap_or(1);
         out.emit(&json!({"ev": "init", "run": run["run"], "peers": w.npeers, "repos": w.rids.len(), "capacity": cap, "queuemax": 128}));
         for op in run["ops"].as_array().unwrap() {
-            let (panic, info) = w.apply(op);
-            if w.observe(op, panic, info, &mut out) {
+            let (panic, info, eff) = w.apply(op);
+            if w.observe(&eff, op, panic, info, &mut out) {
                 break; // the node is gone after a panic
             }
         }
